@@ -257,6 +257,19 @@ def event_cases(r, tr, tier, tabs):
     return out
 
 
+def task_seed(tabs):
+    """One thread creating, running and ending a Nanos6 task and a nOS-V task."""
+    tr = L.Tr()
+    req = {"ovni": tabs["ovni"]["version"], "nanos6": tabs["nanos6"]["version"], "nosv": tabs["nosv"]["version"]}
+    s = Stream(tid=100, pid=1, cpus=[(0, 0), (1, 1)], require=req)
+    evs = [L.Ev(10, "OHx", i32(0, -1) + u64(0)),
+           L.Ev(20, "6Yc", jumbo=u32(3) + b"six\0"), L.Ev(21, "6Tc", u32(1, 3)), L.Ev(22, "6Tx", u32(1)), L.Ev(23, "6Te", u32(1)),
+           L.Ev(30, "VYc", jumbo=u32(4) + b"vee\0"), L.Ev(31, "VTc", u32(1, 4)), L.Ev(32, "VTx", u32(1, 0)), L.Ev(33, "VTe", u32(1, 0)),
+           L.Ev(1000, "OHe")]
+    tr.add(s, evs)
+    return tr
+
+
 def all_cases(r, tier, tabs, res):
     cases = []
     nseeds = 3 if tier == "quick" else 10
@@ -271,6 +284,17 @@ def all_cases(r, tier, tabs, res):
         cases += swap_cases(r, tr, t)
         cases += meta_cases(r, tr, t)
         cases += event_cases(r, tr, t, tabs)
+    # task events of Nanos6 and nOS-V with the payload sizes their handlers check
+    # (create_task: exactly 8 bytes in Nanos6, at least 8 in nOS-V; task state events: at least 4 / 8)
+    tr = task_seed(tabs)
+    cases.append(Case("control", "seed tasks", tr, expect="ok", sidx=0))
+    evs = tr.streams[0][1]
+    for i, e in enumerate(evs):
+        sizes = {"6Tc": [0, 4, 12, 16], "6Tx": [0, 2], "6Te": [0, 2], "VTc": [0, 4], "VTx": [0, 4], "VTe": [0, 4]}.get(e.mcv, [])
+        for n in sizes:
+            t = tr.clone()
+            t.streams[0][1][i].payload = (e.payload + bytes(16))[:n]
+            cases.append(Case("payload", f"s0 {e.mcv} payload {len(e.payload)}->{n}", t))
     if tier == "quick":
         # every model required at once (the `models` seed is otherwise thorough-only): event corruptions only
         tr = L.seed_trace(r, tabs, "models")
